@@ -44,7 +44,7 @@ func c35Real() c35Anchors {
 		newGroup:      modPath + "/sql.Context.NewErrgroup",
 		confinedTypes: []string{modPath + "/sql.ByteBuffer"},
 		floors: map[string]int{"C35-F0": 4, "C35-P1": 16, "C35-P2": 12, "C35-P3": 20, "C35-P4": 15, "C35-P5": 1,
-			"C35-P6": 4, "C35-W1": 2, "C35-B1": 2, "C35-E1": 22},
+			"C35-P6": 6, "C35-W1": 2, "C35-C1": 4, "C35-B1": 2, "C35-E1": 22},
 		exceptions: map[string]string{
 			"C35-P4:resultForDefaultIter/batch/assign res = resultFromOkResult(…)": "the batch is replaced by the OkResult's result only after `if res.RowsAffected > 0 { panic }` on the same path: the discarded batch holds no rows (rows and OkResults never mix in one result set)",
 		},
@@ -55,20 +55,22 @@ func init() {
 	register(&Property{
 		ID:       "C35",
 		Patterns: []string{"./server"},
+		Thorough: []string{"./server"}, // every anchored function lives in package server; nothing is gained by loading more
 		Explanation: "Decided on the syntax trees, types and control-flow graphs of server.Handler.doQuery and the resultFor* functions it dispatches the engine's row iterator to (the family is discovered from the calls that pass the iterator, F0). " +
 			"For the two goroutine pipelines (resultForDefaultIter, resultForValueRowIter): (P1) every channel has all its sends in exactly one spawned stage, that stage closes it exactly once on every exit path and never sends after the close, " +
 			"all receives are in exactly one other stage, and the channel does not escape (single producer/single consumer: FIFO, no loss, no send on a closed channel, the consumer always learns about the end); " +
 			"(P2) the constant of the single wg.Add, executed before any spawn, equals the number of stages with `defer wg.Done()` on every path, every stage other than the closing stage has one, and iter.Close is called in one stage only and only after wg.Wait() on every path " +
 			"(the iterator is closed exactly when every other stage has finished: neither concurrently with Next nor never); (P3) every channel send/receive in a stage is a case of a select that also has a `<-groupCtx.Done()` case (or a default), groupCtx being the context " +
 			"returned with the errgroup, and every Done case leaves the stage (a failing stage always terminates the others, so the error reaches the client instead of a hang); (P4) row flow: the value sent by the reading stage is exactly the row bound by the successful " +
-			"iterator call, sent exactly once per call; in the batching stage every received row is converted by a call taking that row and stored exactly once into the batch with exactly one counter increment (index stores use the counter as index before incrementing it), " +
-			"the batch allocation agrees with the store discipline (append ⇒ length 0; index store ⇒ length = flush constant and the result is truncated to the counter before it is returned), the batch is flushed under `counter ==/>= K`, the batch variable is overwritten " +
-			"only by nil inside the case that just sent it, under `batch == nil`, or by a named exception, and the function's success return — reachable only after group.Wait() — returns that batch variable (the final partial batch is delivered); " +
+			"iterator call, sent exactly once per call; in the batching stage every received row is converted by a call taking that row and the converted row itself is stored exactly once — `rows = append(rows, out)` at the end or `rows[counter] = out` — with exactly one counter increment (after an index store), " +
+			"the batch allocation agrees with the store discipline (append ⇒ length 0; index store ⇒ length = flush constant and the result is truncated to the counter before it is returned), the batch is flushed under `counter ==/>= K`, no assignment to the batch variable is reachable from a row store " +
+			"without passing through the select case that sends the batch (a batch is never reset or replaced while it holds unsent rows; one named exception), and the function's success return — reachable only after group.Wait() — returns that batch variable (the final partial batch is delivered); " +
 			"(P5) the two pipelines have the same stage/channel topology; (B1) the unsynchronised *sql.ByteBuffer that backs the encoded rows is touched by one stage only (and by the function itself only where no stage is running). " +
 			"For the whole family and the dispatcher: (E1) the error result of every call of an iterator method, the client callback, the errgroup Wait, a function variable or a function of package server is either returned directly, or bound to a variable that, on every path on " +
 			"which it is non-nil and not io.EOF (branch conditions evaluated three-valued), reaches a return carrying it or a freshly constructed error before it is overwritten (deferred closures: stored into the function's named error result); a discarded error is a violation when a nil-error " +
-			"return is reachable afterwards. (P6) delivery: in doQuery, on every path after a successful resultFor* call, the caller's callback is invoked at most once, with the returned result, and a nil-error return without it is inside `if … result.RowsAffected == 0 && processedFlag`; that flag is " +
-			"written only from the pipelines' second result; inside a pipeline the flag is set only together with a callback call; (W1) the callback variable the delivering stage invokes is the caller's callback: it is never reassigned, or only to a wrapper that forwards its own arguments " +
+			"return is reachable afterwards. (P6) delivery: in doQuery, on every path after a successful resultFor* call, the caller's callback is invoked at most once, with the returned result, and a nil-error return without it is infeasible both when result.RowsAffected != 0 and when the processed flag is false (the paths are explored in those two worlds, conditions evaluated three-valued); that flag is " +
+			"written only from the pipelines' second result; inside a pipeline the flag is set only together with a callback call, and every batch the delivering stage receives is passed to the callback exactly once before the next receive (or the stage returns an error); (C1) every result struct literal built by a family " +
+			"function that was handed the column metadata sets its Fields from that parameter; (W1) the callback variable the delivering stage invokes is the caller's callback: it is never reassigned, or only to a wrapper that forwards its own arguments " +
 			"exactly once on every path to a copy saved before the assignment (a wrapper that refers to the variable it is stored in calls itself).",
 		NotCovered: "value encoding (RowToSQL / Type.SQL: C28), field metadata, the MySQL protocol writer in vitess (callback implementations), errgroup/context/channel semantics (trusted), concurrency across connections, affected-row counts of OkResults, " +
 			"prepared-statement paths other than through doQuery, what the iterator itself produces",
@@ -101,11 +103,14 @@ func init() {
 					"C35-W1:resultForRows/callback-target",
 				},
 				func(fc *Ctx) { runC35(fc, fa("testdata/c35/bad")) })
-			expectFixture(c, fx, "c35 bad2: the closing stage of one sibling is counted in the WaitGroup (waits for itself)",
+			expectFixture(c, fx, "c35 bad2: closing stage counted in the WaitGroup (waits for itself), sibling topologies differ, result without columns, dropped batch",
 				[]string{
 					"C35-P2:resultForValues/stage(wait)/wg.Done",
 					"C35-P2:resultForValues/wg.Add",
 					"C35-P5:resultForRows~resultForValues",
+					"C35-C1:resultForOne/Result{Fields}",
+					"C35-P6:resultForRows/stage(resChan->)/batch-delivered-once",
+					"C35-P6:resultForRows/processed-flag",
 				},
 				func(fc *Ctx) { runC35(fc, fa("testdata/c35/bad2")) })
 		},
@@ -544,6 +549,7 @@ func runC35(c *Ctx, a c35Anchors) {
 	c.Rule("C35-P5", "the sibling pipelines have the same stage/channel topology", fl("C35-P5"))
 	c.Rule("C35-P6", "doQuery invokes the caller's callback at most once after the resultFor* call, with its result, and returns nil without it only under `RowsAffected == 0 && processedFlag`; the flag is set only together with a callback call", fl("C35-P6"))
 	c.Rule("C35-W1", "the callback variable invoked by the delivering stage is the caller's callback, or a wrapper that forwards its arguments exactly once to a copy saved before the reassignment", fl("C35-W1"))
+	c.Rule("C35-C1", "every result struct a resultFor* function builds sets its column-metadata field from the fields parameter it was given", fl("C35-C1"))
 	c.Rule("C35-B1", "an unsynchronised row buffer is used by one stage only (and by the function body only where no stage can be running)", fl("C35-B1"))
 	c.Rule("C35-E1", "the error of every iterator/callback/group/function-variable/same-package call reaches the returned error on every path on which it is non-nil and not io.EOF; a discarded error is followed by error returns only", fl("C35-E1"))
 
@@ -651,10 +657,12 @@ func runC35(c *Ctx, a c35Anchors) {
 		f.ruleB1()
 		f.ruleW1()
 		f.ruleFlag()
+		f.ruleDeliver()
 	}
 	c35RuleP5(c, pipes)
 	for _, f := range family {
 		f.ruleE1()
+		f.ruleColumns()
 	}
 	disp.ruleE1()
 	disp.ruleP6(famCalls)
